@@ -43,6 +43,8 @@ QFew == { <<0, 0, 1>>, <<-1, 0, 0>>, <<-1, 1, 1>>, <<-1, -1, 0>>, <<1, 2, 2>>, <
 \* thorough tier: twice as many, more unequal lengths and both poles
 QMid == QFew \cup { <<0, 0, -1>>, <<1, 1, 1>>, <<0, -2, 2>>, <<-2, 1, 0>>, <<1, -1, 0>>, <<0, 1, 0>> }
 
+QPole == { <<0, 0, 1>> }
+
 Init == q \in QSet /\ S = <<>>
 Next == /\ S = <<>>
         /\ S' \in { s \in [1..NS -> Pool] : \A i \in 1..(NS - 1) : Lex(s[i], s[i + 1]) }
